@@ -56,6 +56,18 @@ CHECKS = {
    text="The terminate-or-forward automaton of Pipeline.tla (stage order, status table, Retry-After) is enumerated by TLC over all stage combinations and validated by TLC against the real chain's answers (nothing reaches a stub when the gateway answers itself); byte fidelity of forwarded requests and relayed responses is decided by direct comparison over method x escaped path x query x header x body x upstream-response shapes (decoded path, decoded query pairs, body digests, header multimaps, additions only from an allow-list).",
    note="Byte fidelity is outside what a TLA+ model can state (DESIGN section 5): direct comparison; malformed queries outside the decided domain.",
    technique="TLC-enumerated terminate/forward automaton validated on real HTTP + direct byte comparison"),
+ "C03": dict(cat="model_checking", design="4/C03",
+   text="Endpoints.tla models server-list versions (added / removed / disabled endpoints), probe outcomes, the two policies (explicit subset / all endpoints) and requests; TLC checks its invariants and simulates histories, which are replayed on the REAL controller + handler chain + real health checks against TLS/HTTP2 stub upstreams (every change and every readiness flip is awaited on the gateway's own view); TLC validates every forward (listed, enabled, in the subset, not known unhealthy), every 503 (no ready endpoint of the policy known) and every probe (none at a disabled / removed endpoint once the change has settled), incl. the residual-probe race (slow probe in flight + buffered token + disable) repeated 24 times per run.",
+   note="Requests are sequential relative to changes except long-running ones; readiness between a health change and the awaited view is 'unknown' (either outcome accepted).",
+   technique="TLC-simulated histories replayed over real HTTP + TLC trace validation"),
+ "C14": dict(cat="model_checking", design="4/C14",
+   text="The even-spread clause (Endpoints.Spread) is evaluated by TLC on pick sequences recorded from the REAL picker (ClusterInfo.MatchAttributes(...).Pop() on a controller-owned cluster with k = 2..4 really-ready endpoints, optionally next to a disabled one): N in {k-1, k, 3k+1, 1000} sequential picks and 4000 picks from 16 concurrent pickers, for the explicit-subset policy (strict floor/ceil) and the all-endpoints policy (slack k!: one cursor per observed order).",
+   note="Ready set stable during a pick batch; the order of 'all endpoints' comes from a map range, hence the constant slack.",
+   technique="TLC evaluation of the spread predicate on recorded real pick sequences"),
+ "C15": dict(cat="model_checking", design="4/C15",
+   text="Endpoints.tla histories with long-running (watch-like) requests plus directed removal scenarios (request blocked before headers / mid-stream when its endpoint is removed, disabled, or its cluster deleted, with a control stream on another cluster) are replayed over real HTTP; TLC validates: the affected request ends within 5 s (observed: milliseconds) and is the only one cut, new requests never reach the removed endpoint (503 for a deleted cluster), no probe after the removal settled, unaffected clusters keep working.",
+   note="The 5 s bound is the only wall-clock bound of the suite; a miss is a hang.",
+   technique="TLC-simulated and directed removal histories replayed over real HTTP + TLC trace validation"),
 }
 
 NOT_YET = {}
